@@ -349,14 +349,18 @@ messageTypeSwitching:
 	case *objects.BadServerSalt:
 		m.serverSalt = message.NewSalt
 		err := m.SaveSession()
-		check(err)
+		if err != nil {
+			m.warnError(errors.Wrap(err, "saving session"))
+		}
 
-		m.mutex.Lock()
-		for _, k := range m.responseChannels.Keys() {
-			v, _ := m.responseChannels.Get(k)
+		// the server rejected one message, the one it names: only that request is sent again. Its caller
+		// leaves the old response channel for good, so the entry goes away with it
+		badMsgID := int(message.BadMsgID)
+		if v, ok := m.responseChannels.Get(badMsgID); ok {
+			m.responseChannels.Delete(badMsgID)
+			m.expectedTypes.Delete(badMsgID)
 			v <- &errorSessionConfigsChanged{}
 		}
-		m.mutex.Unlock()
 
 	case *objects.NewSessionCreated:
 		m.serverSalt = message.ServerSalt
